@@ -5,7 +5,8 @@ import SqlObjVerif.Model.DrvUtil
     `e <dialect,dialect,…> <tree in prefix notation>` answers
     `<rendered tokens per dialect, joined by ' ; '> | <three-valued value of the source tree per row: T F N> | <rows selected by the
     parsed rendering, under three precedence tables: 1/0 per row> | <parse = toT under the three tables>`.
-    Tree syntax: NumE `c<i>` | `k<int>` | `ar <op> l r` | `neg x` | `pos x` | `b2i <BoolE>`;
+    Tree syntax: NumE `c<i>` | `k<int>` | `f<n>` / `F<n>` (float literal number n, positive / negative; the value fields are
+    meaningless for trees with float literals or float columns: the driver evaluates in `intDom`) | `ar <op> l r` | `neg x` | `pos x` | `b2i <BoolE>`;
     BoolE `cmp <op> l r` | `and& l r` | `or| l r` | `AND n e…` | `OR n e…` | `not~ x` | `NOT x` |
     `in x n item…` | `notin x n item…` (item `N` = None) | `isnull x` | `isnotnull x` | `eqnone x` | `nenone x`. -/
 open SqlObjVerif SqlObjVerif.Expr SqlObjVerif.DrvUtil
@@ -33,6 +34,8 @@ partial def pNum : Parser NumE
   | t :: ts =>
     if t.startsWith "c" then (t.drop 1).toNat?.map fun n => (.col n, ts)
     else if t.startsWith "k" then (t.drop 1).toInt?.map fun i => (.const i, ts)
+    else if t.startsWith "f" then (t.drop 1).toNat?.map fun i => (.fconst false i, ts)
+    else if t.startsWith "F" then (t.drop 1).toNat?.map fun i => (.fconst true i, ts)
     else none
   | [] => none
 
@@ -97,7 +100,7 @@ def parseRow (s : String) : Option (List (Option Int)) :=
     | some v, some l => some (v :: l)
     | _, _ => none) (some [])
 
-def mkRow (vals : List (Option Int)) : Row := fun c => (vals[c]?).join
+def mkRow (vals : List (Option Int)) : Row intDom := fun c => (vals[c]?).join
 
 /-- SQL's usual table (SQLite): OR < AND < NOT < comparisons/IS/IN < + - < * / % < unary -/
 def precSql : Prec where
@@ -129,7 +132,7 @@ def precInv : Prec where
 def showV : Option Bool → String
   | some true => "T" | some false => "F" | none => "N"
 
-def handle (rows : List Row) (line : String) : List Row × String :=
+def handle (rows : List (Row intDom)) (line : String) : List (Row intDom) × String :=
   match words line with
   | "rows" :: rs =>
     let parsed := rs.map parseRow
@@ -141,10 +144,10 @@ def handle (rows : List Row) (line : String) : List Row × String :=
       let dialects := ds.splitOn ","
       let n := buildB e
       let texts := dialects.map fun d => " ".intercalate ((render d false n).map Tok.spell)
-      let vals := String.join (rows.map fun r => showV (evalB r e))
+      let vals := String.join (rows.map fun r => showV (evalB intDom r e))
       let d0 := dialects.headD "sqlite"
       let sel := fun P => match parse P (render d0 false n) with
-        | some t => String.join (rows.map fun r => if selects t r then "1" else "0")
+        | some t => String.join (rows.map fun r => if selects intDom t r then "1" else "0")
         | none => "unparsed"
       let pr := fun P => if dialects.all (fun d => parse P (render d false n) == some (toT d n)) then "ok" else "bad"
       (rows, " ; ".intercalate texts ++ " | " ++ vals ++ " | " ++ sel precSql ++ " " ++ sel precFlat ++ " " ++ sel precInv
